@@ -502,7 +502,9 @@ def monitor_identity(ck, kind, dn, X, p3, p4, recX, tag=""):
 
 
 SHAPE_PAIRS = [((), ()), ((1,), (5,)), ((5,), (1,)), ((4,), (4,)), ((3, 1), (1, 4)), ((2, 3), (3,)), ((3,), (2, 3)),
-               ((2, 1, 3), (2, 3)), ((), (2, 2))]
+               ((2, 1, 3), (2, 3)), ((), (2, 2)),
+               # one element against a cloud / a cloud of elements against one operand (sizes around 64 and 256, 1000)
+               ((), (64,)), ((1,), (257,)), ((), (1000,)), ((300,), ()), ((1,), (3, 70))]
 
 
 def static_part(ck, rng):
